@@ -121,7 +121,7 @@ pub enum Edit {
     /// add `delta` (little-endian, wrapping) to the `width`-byte integer at element `elem` and
     /// reduce modulo `modulus` when given (additive attack on field-typed channels that keeps the
     /// encoding valid)
-    AddLe { elem: usize, width: usize, delta: u128, modulus: Option<u128> },
+    AddLe { elem: usize, stride: usize, width: usize, delta: u128, modulus: Option<u128> },
     /// replace the chunk by the same number of bytes taken from a pattern
     Replace { pattern: u8 },
 }
@@ -212,14 +212,15 @@ pub fn apply_edit(e: &Edit, data: &mut Vec<u8>) {
                 *b = pattern.wrapping_add(i as u8);
             }
         }
-        Edit::AddLe { elem, width, delta, modulus } => {
+        Edit::AddLe { elem, stride, width, delta, modulus } => {
             let w = (*width).min(16).max(1);
-            if n < w {
+            let stride = (*stride).max(w);
+            if n < stride {
                 data[0] ^= 1;
                 return;
             }
-            let elems = n / w;
-            let off = (elem % elems) * w;
+            let elems = n / stride;
+            let off = (elem % elems) * stride;
             let mut buf = [0u8; 16];
             buf[..w].copy_from_slice(&data[off..off + w]);
             let v = u128::from_le_bytes(buf);
